@@ -837,8 +837,8 @@ func runC09(ctx *Ctx) error {
 						ctx.Res.Violate("dispatch:"+sig, fmt.Sprintf("discriminator value %q is mapped to %s; ValueByDiscriminator returns %q %s", k, gt, dyn, e), replay)
 					}
 					out, _ := resp["out"].(string)
-					if !u.Addl {
-						model, merr := c09ModelJSON(ctx, J{"fields": c09OwnFields(u), "decode": c09ObjPairs(o)})
+					{
+						model, merr := c09ModelJSON(ctx, J{"fields": c09OwnFields(u), "decode": c09ObjPairs(o), "additional": u.Addl})
 						if merr != nil {
 							return merr
 						}
